@@ -223,7 +223,7 @@ fn main() {
     let verif_dir = PathBuf::from(std::env::var("ASEMON_VERIF_DIR").unwrap_or_else(|_| "/verif".into()));
     let repo_dir = PathBuf::from(std::env::var("ASEMON_REPO").unwrap_or_else(|_| "/repo".into()));
     // sprites run one after another: each one spawns up to 16 threads itself
-    let ctx = Ctx { prop: "C16".into(), tier, seed, verif_dir, repo_dir, start: Instant::now(), threads: 4, replay: if no_evidence { Some(PathBuf::from("-")) } else { None }, level: "exploration" };
+    let ctx = Ctx { prop: "C16".into(), tier, seed, verif_dir, repo_dir, start: Instant::now(), threads: 4, replay: None, level: "exploration", write_evidence: !no_evidence };
     let n = n_override.unwrap_or(tier.pick(240u64, 5000u64));
     let overlap_pairs: Mutex<HashSet<(String, String)>> = Mutex::new(HashSet::new());
     let mut sum = run_cases(&ctx, n, |i| check_sprite(&ctx, i, &overlap_pairs));
